@@ -79,7 +79,38 @@ def derives_from_key(ctx, F, b, operand, depth=0, seen=None):
     return False, o
 
 
+def run_keyfn(ctx):
+    """the key function itself must separate distinct values: Value::to_partition_key may not pass a payload through a lossy
+    numeric conversion (int -> float, float -> int, narrowing) or a case / whitespace normaliser — two distinct key values that
+    render to one string share a partition"""
+    F = ctx.facts()
+    n = 0
+    bad = []
+    for p in F.bodies_of(KEYFN):
+        b = ctx.body(p)
+        if b is None:
+            continue
+        for bb in sorted(b.live):
+            for s_ in b.stmts(bb):
+                n += 1
+                if s_["k"] == "cast" and s_.get("cast", "") in ("IntToFloat", "FloatToInt") or (s_["k"] == "cast" and s_.get("cast") == "IntToInt" and s_.get("from") != s_.get("to")):
+                    bad.append(("%s -> %s" % (s_.get("from"), s_.get("to")), s_["sp"]))
+            t = b.term(bb)
+            if t["k"] == "call" and t["callee"].rsplit("::", 1)[-1] in ("to_lowercase", "to_uppercase", "to_ascii_lowercase", "to_ascii_uppercase", "trim", "trim_start", "trim_end", "round", "floor", "ceil", "trunc", "abs"):
+                bad.append((t["callee"].rsplit("::", 1)[-1], t["sp"]))
+    ctx.floor("key-fn", "statements of Value::to_partition_key examined", n, 5)
+    if bad:
+        ctx.violation("key-fn", "lossless", "Value::to_partition_key passes the key through a lossy conversion (%s): distinct key values (e.g. two 64-bit integers above 2^53) render to the same partition key, so events with different keys share runs / windows / aggregates" % bad[0][0], site=bad[0][1])
+    else:
+        ctx.ok("key-fn", "lossless", "no lossy numeric conversion or normaliser in the key function")
+
+
 def run(ctx):
+    ctx.guard("key-fn", lambda: run_keyfn(ctx))
+    run_containers(ctx)
+
+
+def run_containers(ctx):
     F = ctx.facts()
     n_keyed = n_whole = 0
     for (adt, field), keyfields in CONTAINERS.items():
